@@ -763,6 +763,9 @@ func (r *runner) run(rnd *rand.Rand) (at int) {
 			r.snaps[s.S-1] = sn
 			r.shash[s.S-1] = sn.Hash()
 			r.observe(at, sn, s.SM[s.S-1], &s.Obs, s.S, s.K, rnd)
+		case "snaplazy": // nothing is asked from the snapshot now (its nodes stay frozen-but-unhashed)
+			r.snaps[s.S-1] = r.mut.GetSnapshot()
+			r.shash[s.S-1] = nil
 		case "check":
 			r.observe(at, r.snaps[s.S-1], s.SM[s.S-1], &s.Obs, s.S, s.K, rnd)
 		case "reset":
@@ -804,6 +807,9 @@ func (r *runner) run(rnd *rand.Rand) (at int) {
 					r.viol("mpt:snapshot:hash-changed", "%s: root hash of snapshot %d changed from %x to %x", at, j+1, r.shash[j], h)
 				}
 				r.checkHash(at+fmt.Sprintf(" snapshot %d", j+1), s.SM[j], h)
+				if r.shash[j] == nil { // a lazily taken snapshot is hashed here for the first time
+					r.shash[j] = h
+				}
 			}
 		}
 		for _, f := range r.fails {
